@@ -116,6 +116,8 @@ fn main() {
 	let arith = alpha::v_arith();
 	for name in SUBJ {
 		let maxn = if name == "WSMA" { (maxp / 2).min(127) } else { (maxp - 1).min(254) };
+		// the length PeriodType::MAX itself, where the constructor takes it
+		let maxn = if maxn == 254 && matches!(catch(|| (spec(name).ctor)(&Params::N(255), &In::V(1.0))), Ok(Ok(_))) { 255 } else { maxn };
 		for n in [1usize, 2, 3, 4, 5, 7] {
 			let sys = MSys {
 				name: format!("{name}/depth-arith/n={n}"),
@@ -205,7 +207,10 @@ fn main() {
 	// TSI: (short, long) pairs
 	{
 		let small: Vec<PeriodType> = vec![1, 2, 3, 4, 5];
-		let edge: Vec<PeriodType> = vec![1, 2, 127, 128, (maxp - 2).min(253) as PeriodType, (maxp - 1).min(254) as PeriodType];
+		let mut edge: Vec<PeriodType> = vec![1, 2, 127, 128, (maxp - 2).min(253) as PeriodType, (maxp - 1).min(254) as PeriodType];
+		if matches!(catch(|| (spec("TSI").ctor)(&Params::NN(255, 255), &In::V(1.0))), Ok(Ok(_))) {
+			edge.push(255);
+		}
 		let mut pairs = vec![];
 		for a in &small {
 			for b in &small {
